@@ -109,19 +109,35 @@ def inventory(db, kind, lines):
         return inv, amounts
     if kind in ("equilibrium_phases", "gas_phase", "solid_solutions"):
         name = None
+        comps = []          # [name, moles, alternative formula]
         for ind, st in items:
             w = st.split()
             if w[0] == "-component" and len(w) > 1:
                 name = w[1]
+                if kind == "equilibrium_phases":
+                    comps.append([name, None, None])
+            elif w[0] == "-add_formula" and kind == "equilibrium_phases" and comps and len(w) > 1:
+                comps[-1][2] = w[1]
             elif w[0] == "-moles" and name is not None and len(w) > 1:
-                n = float(w[1])
-                amounts.append(("%s %s" % (kind, name), n))
+                if kind == "equilibrium_phases":
+                    if comps[-1][1] is None:
+                        comps[-1][1] = float(w[1])
+                    continue
+                comps.append([name, float(w[1]), None])
+                name = None if kind != "solid_solutions" else name
+        for name, n, alt in comps:
+            if n is None:
+                continue
+            amounts.append(("%s %s" % (kind, name), n))
+            if alt:
+                formula = alt          # the amount counts moles of the alternative reagent
+            else:
                 ph = db.phases.get(name)
                 if ph is None or not ph.formula:
                     raise KeyError("phase %s not in database text" % name)
-                for e, c in dbparse.parse_formula(dbparse.charge_of(ph.formula)[0]).items():
-                    add(inv, e, n * c)
-                name = None if kind != "solid_solutions" else name
+                formula = dbparse.charge_of(ph.formula)[0]
+            for e, c in dbparse.parse_formula(formula).items():
+                add(inv, e, n * c)
         return inv, amounts
     if kind == "kinetics":
         m, coefs, sect = None, {}, None
@@ -173,8 +189,16 @@ def build(ctx, case):
     mixed = r.random() < 0.25
     if mixed:
         t += gens.solution(r, 9, charge="pH", temp=25)
+    fix = None
     if "eq" in kinds:
-        t += gens.eq_phases(r, 1, nmax=4)
+        eqt = gens.eq_phases(r, 1, nmax=4)
+        if r.random() < 0.35:
+            # a phase whose target is reached by adding an alternative reagent (manual: 'alternative formula'); the reagent is changed between steps below
+            acid = r.random() < 0.5
+            fix = dict(reagents=["HCl", "HNO3", "H2SO4"] if acid else ["NaOH", "KOH"], ph=round(r.uniform(3, 5) if acid else r.uniform(9, 10.5), 1), others=eqt.split("\n")[1:-1])
+            t = "PHASES\nFix_H+\n H+ = H+\n log_k 0\n" + t
+            eqt += " Fix_H+ %s %s 10\n" % (f(-fix["ph"]), r.choice(fix["reagents"]))
+        t += eqt
     if "exch" in kinds:
         t += gens.exchange(r, 1, equil=1 if r.random() < 0.7 else None)
     cdm = False
@@ -249,9 +273,14 @@ def build(ctx, case):
                     txt += "SAVE %s %d\n" % (USE_WORD.get(kd, kd), nxt)
             txt += "END\n"
             saved = [("solution", nxt)] + [(kd, nxt) for kd, h in have_kind.items() if h] + ([("kinetics", 1)] if "kin" in kinds and cur == 1 else [])
-        steps.append(dict(text=txt, used=used, saved=saved, added=added, mode=mode, mixf=mixf, style=style, incr=incr))
+        pre = None
+        if fix and k > 0 and r.random() < 0.7:
+            # same phases, another reagent (and sometimes another target): only the alternative formula tells the two models apart
+            ph = fix["ph"] if r.random() < 0.5 else round(fix["ph"] + r.uniform(-0.5, 0.5), 1)
+            pre = "EQUILIBRIUM_PHASES %d\n" % cur + "".join(l + "\n" for l in fix["others"]) + " Fix_H+ %s %s 10\nEND\n" % (f(-ph), r.choice(fix["reagents"]))
+        steps.append(dict(text=txt, used=used, saved=saved, added=added, mode=mode, mixf=mixf, style=style, incr=incr, pre=pre))
         cur = nxt
-    return t, steps, sorted(kinds) + (["mix"] if mixed else []) + (["cd_music"] if cdm else [])
+    return t, steps, sorted(kinds) + (["mix"] if mixed else []) + (["cd_music"] if cdm else []) + (["alt-reagent"] if fix else [])
 
 
 def run_case(ctx, case):
@@ -268,6 +297,12 @@ def run_case(ctx, case):
     s.run("a", DUMP)
     s.raw("snap a d")
     for i, st in enumerate(steps):
+        if st.get("pre"):
+            s.raw("tag p%d" % i)
+            s.run("a", st["pre"])
+            s.raw("snap a ew")
+            s.run("a", DUMP)
+            s.raw("snap a d")
         s.raw("tag s%d" % i)
         s.run("a", st["text"])
         s.raw("snap a ew")
@@ -300,6 +335,10 @@ def run_case(ctx, case):
     nchk, worst = 0, 0.0
     judged = 0
     for i, st in enumerate(steps):
+        if st.get("pre"):
+            before, _, err = stage("p%d" % i)
+            if err:
+                break
         after, _, err = stage("s%d" % i)
         if err:
             break
